@@ -13,12 +13,12 @@ from __future__ import annotations
 from pestverif.gast import ASCII_IDS, UNICODE_IDS, walk
 
 PROFILES = {
-    "core": {"ci", "ranges", "builtins", "soi", "recursion", "emptystr"},
-    "trivia": {"ci", "ranges", "builtins", "soi", "trivia", "atomic", "recursion"},
-    "stack": {"ranges", "soi", "stack", "recursion"},
+    "core": {"ci", "ranges", "builtins", "soi", "recursion", "emptystr", "leak"},
+    "trivia": {"ci", "ranges", "builtins", "soi", "trivia", "atomic", "recursion", "leak"},
+    "stack": {"ranges", "soi", "stack", "recursion", "leak"},
     "full": {
         "ci", "ranges", "builtins", "unicode", "soi", "trivia", "atomic", "stack", "tags", "recursion",
-        "groups", "emptystr",
+        "groups", "emptystr", "leak",
     },
     "bait": {"ci", "ranges", "builtins", "unicode", "soi", "trivia", "atomic", "bait", "groups"},
 }
@@ -68,6 +68,7 @@ class Gen:
         self.max_depth = max_depth
         self.nullable: dict[str, bool] = {}
         self.names: list[str] = []
+        self.extra: list = []  # helper rules created on the fly (abandoned-attempt bait)
 
     # ------------------------------------------------------------------ terminals
     def literal(self):
@@ -176,6 +177,8 @@ class Gen:
             ops.append("grp")
         if "bait" in self.f:
             ops += ["bait", "bait", "bait"]
+        if "leak" in self.f:
+            ops += ["leak", "leak"]
         c = r.choice(ops)
         if need and c in ("opt", "and", "not"):
             c = "seq"
@@ -236,7 +239,61 @@ class Gen:
             return self.maybe_tag(e), nl
         if c == "bait":
             return self.bait(need)
+        if c == "leak":
+            return self.leak(need, later)
         raise AssertionError(c)
+
+    def leak(self, need, later):
+        """An attempt that produces pairs / stack entries and is then abandoned, under every kind of
+        backtracking construct; optionally behind a fresh silent, normal or atomic helper rule."""
+        r = self.r
+        cands = [n for n in later if not self.nullable[n]]
+
+        def pairmaker():
+            if cands and r.random() < 0.8:
+                return self.maybe_tag(("id", r.choice(cands)))
+            return ("str", self.literal())
+
+        items = [pairmaker()]
+        if r.random() < 0.5:
+            items.append(pairmaker())
+        if "stack" in self.f and r.random() < 0.4:
+            items.insert(r.randrange(len(items) + 1), r.choice([("push", ("str", "a")), ("pushlit", "b"), ("id", "DROP")]))
+            if not any(x[0] in ("str",) or (x[0] == "id" and x[1] in cands) or x[0] == "tag" for x in items):
+                items.insert(0, ("str", "a"))
+        failer = r.choice([("str", "!"), ("str", "!"), ("range", "0", "1"), ("id", "EOI"), ("not", ("id", "ANY")), ("str", "ab")])
+        x = ("seq", tuple(items + [failer]))
+        # first element must consume so that repetitions over x make progress
+        if x[1][0][0] in ("pushlit",) or (x[1][0][0] == "id" and x[1][0][1] == "DROP"):
+            x = ("seq", (("str", "a"),) + x[1])
+        how = r.random()
+        if how < 0.45:
+            mod = r.choice(["_", "_", "", "@", "$"] if "atomic" in self.f else ["_", "_", ""])
+            name = "x%d__" % len(self.extra)
+            self.extra.append((name, mod, x))
+            self.nullable[name] = False
+            x = ("id", name)
+        elif how < 0.6:
+            x = ("grp", x)
+        k = r.choice(["opt", "opt", "star", "max", "minmax0", "alt", "alt", "not", "and", "plus-alt"])
+        if need and k not in ("alt", "plus-alt"):
+            k = "alt"
+        if k == "opt":
+            return ("opt", x), True
+        if k == "star":
+            return ("star", x), True
+        if k == "max":
+            return ("max", x, r.randint(1, 2)), True
+        if k == "minmax0":
+            return ("minmax", x, 0, r.randint(1, 2)), True
+        if k == "not":
+            return ("not", x), True
+        if k == "and":
+            return ("and", x), True
+        fallback, nl = self.term(need, later, False)
+        if k == "alt":
+            return ("alt", (x, fallback)), nl
+        return ("alt", (("plus", x), fallback)), nl
 
     def bait(self, need):
         """Shapes the optimizer passes look for."""
@@ -299,7 +356,7 @@ class Gen:
             built[self.names[i]] = (mod, e)
             if mod == "_" and e[0] == "str" and e[1]:
                 self.names_silent_lits.append(self.names[i])
-        rules = [(nm, built[nm][0], built[nm][1]) for nm in self.names]
+        rules = [(nm, built[nm][0], built[nm][1]) for nm in self.names] + list(self.extra)
         if "trivia" in self.f:
             w = r.random()
             extra = []
@@ -376,6 +433,11 @@ class Deriver:
         return out
 
     def der(self, e, atom, fuel) -> str:
+        # bounded: stack-driven grammars (PUSH(PEEK_ALL ...) in repetitions) double the text at every step
+        out = self._der(e, atom, fuel)
+        return out if len(out) <= 40 else out[:40]
+
+    def _der(self, e, atom, fuel) -> str:
         r = self.r
         k = e[0]
         if k == "str":
